@@ -2291,14 +2291,23 @@ func (c *streamableClientConn) Write(ctx context.Context, msg jsonrpc.Message) e
 	}
 
 	doRequest := func() (*http.Request, *http.Response, error) {
-		req, err := http.NewRequestWithContext(ctx, http.MethodPost, c.url, bytes.NewReader(data))
+		// A request that is still waiting for its response when the connection
+		// fails or is closed must not keep its caller blocked in Write: the
+		// session has terminated and nothing can be delivered any more. So
+		// while the response is outstanding, the exchange ends with ctx and
+		// also with the connection. Once the response has arrived only ctx
+		// (and closing the body) ends it, as before.
+		reqCtx, cancel := context.WithCancel(ctx)
+		req, err := http.NewRequestWithContext(reqCtx, http.MethodPost, c.url, bytes.NewReader(data))
 		if err != nil {
+			cancel()
 			return nil, nil, err
 		}
 		req.Header.Set("Content-Type", "application/json")
 		req.Header.Set("Accept", "application/json, text/event-stream")
 
 		if err := c.setMCPHeaders(req, msg); err != nil {
+			cancel()
 			// Failure to set headers means that the request was not sent.
 			// Wrap with ErrRejected so the jsonrpc2 connection doesn't set writeErr
 			// and permanently break the connection.
@@ -2307,12 +2316,26 @@ func (c *streamableClientConn) Write(ctx context.Context, msg jsonrpc.Message) e
 		// Keep this after the setMCPHeaders call to ensure that the
 		// protocol version header is set.
 		setStandardHeaders(ctx, req.Header, msg)
+		answered := make(chan struct{})
+		go func() {
+			select {
+			case <-c.failed:
+				cancel()
+			case <-c.done:
+				cancel()
+			case <-answered:
+			}
+		}()
 		resp, err := c.client.Do(req)
+		close(answered)
 		if err != nil {
+			cancel()
 			// Any error from client.Do means the request didn't reach the server.
 			// Wrap with ErrRejected so the jsonrpc2 connection doesn't set writeErr
 			// and permanently break the connection.
 			err = fmt.Errorf("%s: %w: %w", requestSummary, jsonrpc2.ErrRejected, err)
+		} else {
+			resp.Body = &cancelOnCloseBody{ReadCloser: resp.Body, cancel: cancel}
 		}
 		return req, resp, err
 	}
@@ -2423,6 +2446,19 @@ func (c *streamableClientConn) Write(ctx context.Context, msg jsonrpc.Message) e
 		return fmt.Errorf("%s: unsupported content type %q", requestSummary, contentType)
 	}
 	return nil
+}
+
+// cancelOnCloseBody releases the context of an HTTP exchange when its
+// response body is closed.
+type cancelOnCloseBody struct {
+	io.ReadCloser
+	cancel context.CancelFunc
+}
+
+func (b *cancelOnCloseBody) Close() error {
+	err := b.ReadCloser.Close()
+	b.cancel()
+	return err
 }
 
 func (c *streamableClientConn) setMCPHeaders(req *http.Request, msg jsonrpc.Message) error {
